@@ -204,6 +204,24 @@ def run(ck, F):
                         good = True
             ck.check(R1c, name, good, f'{name}::Category() does not pass Category_code::{code} to its base',
                      loc=c['loc'])
+    # the member that holds the stamp can represent every code
+    R1d = ck.rule('C06.1d-code-representable', 'the data member of Node that holds the category code has the enumeration\'s own type at full '
+                  'width, or is a bit-field wide enough (sign included) for the largest code: what a constructor stores is what `category` '
+                  'reads back', floor=1)
+    nrec = F.need_rec(NODE)
+    cf = [fl for fl in nrec['fields'] if 'Category_code' in fl['t']]
+    if len(cf) != 1:
+        raise AnalysisBroken(f'{NODE}: {len(cf)} data members of type Category_code')
+    top = max(codes.values())
+    fl = cf[0]
+    if fl.get('bits') is None:
+        ck.ok(R1d, f'{NODE}::{fl["name"]}')
+    else:
+        cap = (1 << (fl['bits'] - (1 if fl.get('signed') else 0))) - 1
+        ck.check(R1d, f'{NODE}::{fl["name"]}', top <= cap,
+                 f'{NODE}::{fl["name"]} is a {"signed " if fl.get("signed") else ""}{fl["bits"]}-bit bit-field: it holds codes up to {cap}, the '
+                 f'enumeration goes up to {top} ({sum(1 for v in codes.values() if v > cap)} codes read back as other values)', loc=nrec['loc'])
+
     # abstract chain
     abstract_chain = set()
     for cls, (_c, sup) in leaf.items():
